@@ -40,6 +40,7 @@ Separate Extraction
   Dot.wf_cdfa
   Dot.known_rx_all
   Dot.rx_wf_b
+  Dot.rx_total_b
   DotSpec.sub_ids
   DotRead.read
   DotRead.render_label
